@@ -77,15 +77,17 @@ def partition(rng, schema, n_files):
 
 def write_layout(rng, root, files, layout):
     """layout 0: all files in one directory; 1: included files spread over two -I directories;
+    2: like 1, but the last two files lie in the root and only they are given on the command line (the others are
+    reached through -I only, and get their outputs from a second run);
     returns (paths by leaf, include dirs)"""
     os.makedirs(root, exist_ok=True)
     paths, dirs = {}, []
-    if layout == 1:
+    if layout in (1, 2):
         dirs = [os.path.join(root, 'i1'), os.path.join(root, 'i2')]
         for d in dirs:
             os.makedirs(d, exist_ok=True)
     for k, (leaf, decls, incs) in enumerate(files):
-        is_last = (k == len(files) - 1)
+        is_last = (k == len(files) - 1) or (layout == 2 and k == len(files) - 2)
         d = root if (layout == 0 or is_last) else dirs[k % 2]
         text = ''.join('#include "%s.prophy"\n' % i for i in incs) + '\n'.join(S.decl_to_prophy(x) for x in decls) + '\n'
         p = os.path.join(d, leaf + '.prophy')
@@ -162,14 +164,14 @@ def run_c16(tier):
     root = tempfile.mkdtemp(prefix='prophy-verif-')
     try:
         reqs, rows = [], []
-        for si in range(chk.scale(25, 250)):
+        for si in range(chk.scale(18, 180)):
             sc = S.Gen(chk.rng, n_decls=8).schema()
             single_dir = os.path.join(root, 's%d' % si)
             nodes, single = py_impl.compile_prophy(S.to_prophy(sc), single_dir, 'single')
             names = S.type_names(sc)
-            for variant in range(chk.scale(2, 3)):
+            for variant in range(3):
                 files = partition(chk.rng, sc, chk.rng.randint(2, 5))
-                layout = variant % 2
+                layout = variant
                 base = os.path.join(single_dir, 'v%d' % variant)
                 paths, dirs = write_layout(chk.rng, base, files, layout)
                 out = os.path.join(base, 'out')
@@ -190,7 +192,15 @@ def run_c16(tier):
                 else:
                     cwd = base
                     args = ['--python_out', out] + [x for d in dirs for x in ('-I', d)] + [paths[leaf] for leaf in leaves]
-                rc, so, se = run_cli(args, cwd)
+                if layout == 2 and len(leaves) > 2:
+                    # first the two files of the root directory in one run, then the rest
+                    inc = [x for d in dirs for x in ('-I', d)]
+                    rc, so, se = run_cli(['--python_out', out] + inc + [paths[leaf] for leaf in leaves[-2:]], cwd)
+                    if rc == 0:
+                        args = ['--python_out', out] + inc + [paths[leaf] for leaf in leaves[:-2]]
+                        rc, so, se = run_cli(args, cwd)
+                else:
+                    rc, so, se = run_cli(args, cwd)
                 if rc != 0:
                     chk.property_violation(casej, {'what': 'prophyc failed on a valid multi-file schema', 'stderr': se[:600], 'cwd': cwd, 'args': args})
                     continue
@@ -291,6 +301,56 @@ def tree_hash(d):
     return h.hexdigest()
 
 
+def patched_runs(chk, root):
+    """--patch with several independent input files declaring the same names: what is generated for a file must not
+    depend on the files compiled with it, nor on their order"""
+    for si in range(chk.scale(4, 30)):
+        base = os.path.join(root, 'p%d' % si)
+        os.makedirs(base)
+        texts = {}
+        rules = []
+        for leaf in ('pa', 'pb', 'pc')[:chk.rng.randint(2, 3)]:
+            sc = S.Gen(chk.rng, n_decls=4, shared_sizers=False, small_discs=True, prefix='').schema()
+            texts[leaf] = S.to_prophy(sc)
+            open(os.path.join(base, leaf + '.prophy'), 'w').write(texts[leaf])
+            if not rules:
+                structs = [d for d in sc.decls if isinstance(d, S.Struct)]
+                for d in chk.rng.sample(structs, min(2, len(structs))):
+                    rules.append('%s insert 0 zz_patched_%d u8' % (d.name, len(rules)))
+                    rules.append('%s rename zz_patched_%d zz_renamed_%d' % (d.name, len(rules) - 1, len(rules) - 1))
+        open(os.path.join(base, 'patch.txt'), 'w').write('\n'.join(rules) + '\n')
+        leaves = sorted(texts)
+
+        def run(order, tag, hs=0):
+            out = os.path.join(base, tag)
+            os.makedirs(out)
+            rc, so, se = run_cli(['--patch', 'patch.txt', '--python_out', tag, '--cpp_out', tag, '--cpp_full_out', tag] + [leaf + '.prophy' for leaf in order], base, hashseed=hs)
+            return rc, se, {fn: open(os.path.join(out, fn), 'rb').read() for fn in sorted(os.listdir(out))}
+        ref = {}
+        ok = True
+        for leaf in leaves:
+            rc, se, produced = run([leaf], 'alone_' + leaf)
+            if rc != 0:
+                ok = False      # the generated rule does not apply to this schema (e.g. name clash): not a determinism question
+                break
+            ref.update(produced)
+        if not ok:
+            continue
+        orders = [leaves, list(reversed(leaves))]
+        for oi, order in enumerate(orders):
+            casej = {'files': texts, 'patch': rules, 'order': order}
+            chk.count(('patched', si, oi), True)
+            chk.bump('patched-multi-file')
+            rc, se, produced = run(order, 'together%d' % oi, hs=oi * 7)
+            if rc != 0:
+                chk.property_violation(casej, {'what': 'prophyc --patch failed on files that compile one by one', 'stderr': se[:500]})
+                continue
+            for fn, data in produced.items():
+                if ref.get(fn) != data:
+                    chk.property_violation(casej, {'what': 'generated file %s differs from compiling its input alone with the same patch' % fn})
+                    break
+
+
 def run_c20(tier):
     chk = core.Check('C20', tier)
     chk.rule = ('multi-file and single-file schemas compiled by `python -m prophyc` (python + C++ full + C++ raw outputs) under different '
@@ -353,6 +413,7 @@ def run_c20(tier):
                                                        'reference_sha': hashlib.sha256(ref[fn]).hexdigest()[:12], 'this_sha': hashlib.sha256(data).hexdigest()[:12]})
                 if len(order) == len(leaves) and set(produced) != set(ref):
                     chk.property_violation(casej, {'what': 'set of generated files differs', 'reference': sorted(ref), 'this': sorted(produced)})
+        patched_runs(chk, root)
         for (casej, impl), m in zip(crows, client.batch(creqs)):
             chk.corr_compared += 1
             want = [{'leaf': r['leaf'] + '.prophy', 'visible': r['visible'], 'parsed': r['parsed']} for r in impl] if isinstance(impl, list) else impl
